@@ -207,6 +207,9 @@ func runC16(c *Ctx) {
 	c16Addr(c)
 	c16Siblings(c)
 	c16URISplitOrder(c, "dependency-set")
+	// header-name spelling (compact f:, t:, i: in any letter case) does not affect the attribution (shared with C17)
+	c17Internals(c)
+	c17CompactTable(c)
 	ruleSplitRemainder(c, "tag-errors")
 	c.floor("dependency-set", 2)
 	c.floor("injective-join", 2)
